@@ -1025,7 +1025,7 @@ func main() {
 	p := probe.New()
 	s := &probeState{p: p, r: p.Rand, nulShown: map[string]bool{}}
 	size := 2000
-	n := p.N(100, 1000) // 200 k / 2 M tuples
+	n := p.N(120, 1200) // about 200 k / 2 M tuples
 	for u := 0; u < n; u++ {
 		s.universe(u, false, size)
 	}
